@@ -309,7 +309,7 @@ var encs = []enc{{32, false}, {32, true}, {64, false}, {64, true}}
 func (r *runner) cpu() {
 	th := r.c.Thorough()
 	r.c.Note("cpu A (C++): 4 encodings (32/64 bit x LE/BE) x [1 record: 84 stacks (len<=3) x counts {0,1,2,5} x periods {1,10000,1000000}; 2 records: 84^2 stacks x count pairs {(1,2),(5,1)}; 3 records: " +
-		map[bool]string{false: "20^3 stacks (len<=2)", true: "84^3 stacks; 4 records: 20^4 stacks"}[th] + "]; large profiles of 33/34/40 records for the 1-in-32 margin")
+		map[bool]string{false: "20^3 stacks (len<=2)", true: "84^3 stacks; 4 records: 20^4 stacks"}[th] + "]; large profiles of 31..96 records around every multiple of 32 and 33 for the 1-in-32 margin")
 	for _, e := range encs {
 		alpha := alphabet(e.word == 64)
 		all3 := seqs(alpha, 1, 3)
@@ -355,7 +355,10 @@ func (r *runner) cpu() {
 		}
 		// the margin: one differing sample per 32 is allowed
 		a, b, cc, dd := alpha[0], alpha[1], alpha[2], alpha[3]
-		for _, sh := range [][3]int{{32, 1, 0}, {32, 2, 0}, {39, 1, 0}, {30, 10, 0}, {39, 0, 1}, {64, 2, 0}, {64, 3, 0}} {
+		// (same, differing, single-frame) counts; the totals sit on both sides of every multiple of 32
+		// and of 33, so that a margin of n/32 is told apart from n/31 and n/33
+		for _, sh := range [][3]int{{32, 1, 0}, {32, 2, 0}, {39, 1, 0}, {30, 10, 0}, {39, 0, 1}, {64, 2, 0}, {64, 3, 0},
+			{31, 1, 0}, {30, 1, 0}, {31, 2, 0}, {62, 2, 0}, {61, 2, 0}, {63, 2, 0}, {93, 3, 0}, {92, 3, 0}, {31, 0, 1}, {30, 0, 1}} {
 			for _, sig := range [][]uint64{{b}, {b, cc}} {
 				var recs []Rec
 				for i := 0; i < sh[0]; i++ {
